@@ -68,6 +68,7 @@ Footprint == [
   c08        |-> {"emailrule", "htpasswd", "store", "errmode", "refresh"},
   c08file    |-> {"emailrule", "errmode", "refresh"},
   lifetime   |-> {"store", "refresh", "cookiename"},
+  sched      |-> {"store", "refresh", "cookiename"},
   c10        |-> {"store", "cookiename", "refresh"},
   c10size    |-> {"store", "cookiename", "cookieattrs", "refresh"},
   signout    |-> {"store", "logout", "refresh", "errmode", "cookiename"},
